@@ -76,3 +76,31 @@ Theorem c14_columns_default_is_qualification_on_single_select : forall n1 n2 e e
   script_pairs e false [] [r_stmt n1 s] = script_pairs e0 false [] [r_stmt n2 (qual_stmt (e_cfg e) s)].
 Proof. exact cols_default_is_qualification_on_single_select_strong. Qed.
 Print Assumptions c14_columns_default_is_qualification_on_single_select.
+
+(** * the fragments added in round 6 (Tree/QualifyNew.v): UPDATE / MERGE / SELECT .. INTO and statements with expression items.
+    As in c14_default_is_qualification_on_core the guards of the qualified statement are hypotheses (their preservation by
+    qualification is proved only for the single-SELECT fragment); the non-vacuity example of the file satisfies them. *)
+From SV Require Import Ast.SpecDml Tree.RenderDml Tree.LemmaADmlDefs Tree.LemmaAMeta Tree.LemmaADmlMeta Tree.RenderExpr Tree.LemmaAExpr Tree.QualifyNew.
+Theorem c14_spec_default_is_qualification_update_merge : forall ds d, ds <> "" ->
+  dml_reads "" (qualify_dml ds d) = dml_reads ds d /\ dml_writes "" (qualify_dml ds d) = dml_writes ds d.
+Proof. exact dml_default_is_qualification. Qed.
+Print Assumptions c14_spec_default_is_qualification_update_merge.
+
+Theorem c14_default_is_qualification_update_merge : forall n1 n2 e e0 d,
+  noise_ok n1 = true -> noise_ok n2 = true -> env_ok_md e = true -> env_ok_md e0 = true ->
+  e_cfg e <> "" -> e_cfg e0 = "" ->
+  dml_ok d = true -> dml_ok (qualify_dml (e_cfg e) d) = true ->
+  stmt_reads (analyze e false (r_dml n1 d)) = stmt_reads (analyze e0 false (r_dml n2 (qualify_dml (e_cfg e) d))) /\
+  stmt_writes (analyze e false (r_dml n1 d)) = stmt_writes (analyze e0 false (r_dml n2 (qualify_dml (e_cfg e) d))).
+Proof. exact dml_default_is_qualification_on_model. Qed.
+Print Assumptions c14_default_is_qualification_update_merge.
+
+Theorem c14_default_is_qualification_with_expressions : forall n1 n2 e e0 s,
+  noise_ok n1 = true -> noise_ok n2 = true -> env_ok e = true -> env_ok e0 = true ->
+  e_cfg e <> "" -> e_cfg e0 = "" ->
+  stmt_ok_a s = true -> LemmaAProofs.sshape s = true ->
+  stmt_ok_a (qual_stmt (e_cfg e) s) = true -> LemmaAProofs.sshape (qual_stmt (e_cfg e) s) = true ->
+  stmt_reads (analyze e false (r_stmt_x n1 s)) = stmt_reads (analyze e0 false (r_stmt_x n2 (qual_stmt (e_cfg e) s))) /\
+  stmt_writes (analyze e false (r_stmt_x n1 s)) = stmt_writes (analyze e0 false (r_stmt_x n2 (qual_stmt (e_cfg e) s))).
+Proof. exact default_is_qualification_x. Qed.
+Print Assumptions c14_default_is_qualification_with_expressions.
